@@ -134,16 +134,19 @@ theorem C20_fix_out (p : Policy) (hp : Plain p.ensureInit) (G : Token → Prop) 
 /-! ### the link-option fixed point, element by element -/
 
 /-- what `LinkSimple` asks, for one element, without the clause about value patterns on the URL attribute -/
-structure LinkBaseAt (p : Policy) (el : Bytes) : Prop where
+structure LinkCoreAt (p : Policy) (el : Bytes) : Prop where
   noStyle : p.hasStylePolicies el = false
   noCross : p.requireCrossOriginAnonymous = false
   noSandbox : p.requireSandboxOnIFrame = none
   noRewriter : p.srcRewriter = none
   stable : ∀ v v', p.validURL v = some v' → p.validURL v' = some v'
+
+/-- … and the rules let neither rel nor target through on a link element -/
+structure LinkBaseAt (p : Policy) (el : Bytes) : Prop extends LinkCoreAt p el where
   noRelTarget : ∀ aps, p.attrRulesFor el = some aps → isHrefElement el = true → ∀ v,
     (p.filterAttr el aps false ⟨b!"rel", v⟩).isSome = false ∧ (p.filterAttr el aps false ⟨b!"target", v⟩).isSome = false
 
-theorem link_sanitizeAttrsAt (p : Policy) (el : Bytes) (hs : LinkBaseAt p el) (attrs : List Attr) (aps : AttrRules) :
+theorem link_sanitizeAttrsAt (p : Policy) (el : Bytes) (hs : LinkCoreAt p el) (attrs : List Attr) (aps : AttrRules) :
     p.sanitizeAttrs el attrs aps =
       (let c := attrs.filter fun a => (p.filterAttr el aps false a).isSome
        if c.isEmpty then some c else p.linkPasses el c) := by
@@ -159,7 +162,7 @@ theorem link_sanitizeAttrsAt (p : Policy) (el : Bytes) (hs : LinkBaseAt p el) (a
       cases p.linkPasses el (List.filter (fun a => (p.filterAttr el aps false a).isSome) attrs) <;> rfl
 
 /-- the URL pass on one attribute: a fixed point on what it returns; a changed attribute has the element's URL key -/
-theorem urlFixAt {p : Policy} {el : Bytes} (hs : LinkBaseAt p el) (a b : Attr)
+theorem urlFixAt {p : Policy} {el : Bytes} (hs : LinkCoreAt p el) (a b : Attr)
     (h : p.urlPassAttr el a = some (some b)) :
     p.urlPassAttr el b = some (some b) ∧ b.key = a.key ∧
       (b = a ∨ (urlKeyFor el = some a.key ∧ p.validURL a.val = some b.val)) := by
@@ -189,7 +192,7 @@ theorem link_idemAt (p : Policy) (el : Bytes) (hs : LinkBaseAt p el) (attrs out 
       (∀ v v', (p.filterAttr el aps false ⟨k, v⟩).isSome = (p.filterAttr el aps false ⟨k, v'⟩).isSome) ∨
       (isHrefElement el = false ∧ ∀ b ∈ out, b.key ≠ k)) :
     p.sanitizeAttrs el out aps = some out := by
-  rw [link_sanitizeAttrsAt p el hs] at h ⊢
+  rw [link_sanitizeAttrsAt p el hs.toLinkCoreAt] at h ⊢
   simp only at h ⊢
   generalize hacc : (fun a => (p.filterAttr el aps false a).isSome) = acc at h ⊢
   generalize hc : attrs.filter acc = c at h
@@ -220,7 +223,7 @@ theorem link_idemAt (p : Policy) (el : Bytes) (hs : LinkBaseAt p el) (attrs out 
         by_cases hrp : p.requireParseableURLs = true
         · simp only [hrp, ↓reduceIte] at hu
           obtain ⟨a, ha, hfa⟩ := mapMOpt_mem _ c u hu b hb
-          obtain ⟨_, hk, hor⟩ := urlFixAt hs a b hfa
+          obtain ⟨_, hk, hor⟩ := urlFixAt hs.toLinkCoreAt a b hfa
           rcases hor with rfl | ⟨hkey, _⟩
           · exact hcacc _ ha
           · rcases hblind' a.key hkey with hbl | ⟨hnh, hno⟩
@@ -237,7 +240,7 @@ theorem link_idemAt (p : Policy) (el : Bytes) (hs : LinkBaseAt p el) (attrs out 
       have hufix : (if p.requireParseableURLs = true then mapMOpt (p.urlPassAttr el) u else some u) = some u := by
         by_cases hrp : p.requireParseableURLs = true
         · simp only [hrp, ↓reduceIte] at hu ⊢
-          exact mapMOpt_fix _ (fun a b hab => (urlFixAt hs a b hab).1) c u hu
+          exact mapMOpt_fix _ (fun a b hab => (urlFixAt hs.toLinkCoreAt a b hab).1) c u hu
         · simp only [hrp, Bool.false_eq_true, ↓reduceIte]
       have hfu : u.filter acc = u := List.filter_eq_self.mpr huacc
       by_cases hcond : ((p.requireNoFollow || p.requireNoFollowFullyQualifiedLinks || p.requireNoReferrer ||
